@@ -55,7 +55,7 @@ func pkgLabel(p *types.Package) string {
 }
 
 func (c *canon) typ(t types.Type) string {
-	return types.TypeString(t, func(p *types.Package) string { return p.Name() })
+	return types.TypeString(t, pkgLabel)
 }
 
 func (c *canon) expr(x ast.Expr) string {
